@@ -171,6 +171,18 @@ def run(ctx):
                         res.violation(case, "SimfilePack.simfiles() differs from openpack", impl=str(titles)[:200], expected=str([t for t, _ in got_pack])[:200])
                     elif via_pack and any(any(k2.get(k) != v for k, v in kw.items()) for k2 in seen_kwargs):
                         res.violation(case, "SimfilePack.simfiles() did not pass the loader options down", impl=seen_kwargs[:2])
+                # a pack made with ignore_duplicate=True: its simfile_dirs()/simfiles() use that setting in every directory
+                if ign and any_dup and not (stray and strict and via_pack):
+                    try:
+                        spi = SimfilePack(packdir, filesystem=fsys, ignore_duplicate=True)
+                        titles = [sf.title for sf in spi.simfiles(**kw)]
+                        paths = [(sd_.sm_path, sd_.ssc_path) for sd_ in spi.simfile_dirs()]
+                    except Exception as ex:
+                        titles = paths = core.exc_name(ex)
+                    exp_titles = [t for t, _ in via_pack]
+                    if titles != exp_titles:
+                        res.violation(case, "SimfilePack(ignore_duplicate=True).simfiles() differs from opening its directories with that setting",
+                                      impl=str(titles)[:200], expected=str(exp_titles)[:200])
                 if fsname == "native": shutil.rmtree(root, ignore_errors=True)
     finally:
         simfile.open = real_open
